@@ -12,6 +12,7 @@ import (
 	"fmt"
 	"math/big"
 	"strings"
+	"sync"
 
 	"github.com/youchainhq/go-youchain/common"
 	"github.com/youchainhq/go-youchain/core/state"
@@ -54,6 +55,8 @@ type world struct {
 	r     *mc.Run
 	f     *chainx.Fixture
 	start map[string]*chainx.Node // per state: node after the prefix (never mutated: always forked)
+	cmu   sync.Mutex
+	ctrl  map[string]*snap
 }
 
 // targetOf: the accused validator of a validator state.
@@ -160,12 +163,13 @@ func classify(c Case) string {
 }
 
 type snap struct {
-	vals    map[string]string
-	tokens  map[string]*big.Int // Token + unfinished withdrawals, per validator
-	staked  map[string]*big.Int // Token only
-	penalty *big.Int
-	expel   map[string]string
-	supply  *big.Int
+	vals     map[string]string
+	tokens   map[string]*big.Int // Token + unfinished withdrawals, per validator
+	staked   map[string]*big.Int // Token only
+	penalty  *big.Int
+	expel    map[string]string
+	supply   *big.Int
+	accounts *big.Int // sum of the balances of all fixture accounts (withdrawal recipients among them)
 }
 
 func (w *world) take(n *chainx.Node) snap {
@@ -188,6 +192,10 @@ func (w *world) take(n *chainx.Node) snap {
 		s.tokens[v.Name] = t
 	}
 	s.penalty = st.GetBalance(chainx.V5().PenaltyTo)
+	s.accounts = new(big.Int)
+	for _, a := range w.f.Accounts {
+		s.accounts.Add(s.accounts, st.GetBalance(a.Addr))
+	}
 	return s
 }
 
@@ -197,6 +205,27 @@ func dls(v *state.Validator) string {
 		out = append(out, d.Token.String())
 	}
 	return strings.Join(out, ",")
+}
+
+// control returns the snapshot after one evidence-free block built on the case's start state (cached per state).
+func (w *world) control(c Case, n *chainx.Node) snap {
+	key := c.State + "/" + c.Cfg
+	w.cmu.Lock()
+	defer w.cmu.Unlock()
+	if s, ok := w.ctrl[key]; ok {
+		return *s
+	}
+	ctl := n.Fork()
+	defer ctl.Close()
+	if _, err := ctl.Build(w.f.Val("c1").Main, nil); err != nil {
+		panic("harness: control block fails: " + err.Error())
+	}
+	s := w.take(ctl)
+	if w.ctrl == nil {
+		w.ctrl = map[string]*snap{}
+	}
+	w.ctrl[key] = &s
+	return s
 }
 
 // run one case; returns a short outcome string for the distinct counter.
@@ -227,7 +256,11 @@ func (w *world) run(c Case) string {
 	}
 	pre := n.Fork()
 	defer pre.Close()
-	before := w.take(n)
+	stateBefore := w.take(n)
+	// control: the same next block WITHOUT the evidence (withdrawals maturing, rewards and period-end
+	// processing of that block are not effects of the evidence); every comparison below is against it
+	before := w.control(c, n)
+	before.staked = stateBefore.staked
 	for _, e := range evs {
 		n.Staking.VerifAddEvidence(e)
 	}
@@ -253,8 +286,14 @@ func (w *world) run(c Case) string {
 	}
 	after := w.take(n)
 	cls := classify(c)
-	if c.Placement == "two" && c.RoundOff == 0 {
-		cls = "real" // the second evidence of this placement is a genuine pair over different hashes
+	if c.Placement == "two" {
+		// the second evidence of this placement is a pair over different hashes with the same declared
+		// signer index, round and round index: genuine iff those are
+		c2 := c
+		c2.Signs, c2.VoteType = []string{"B", "0"}, staking.Prevote
+		if classify(c2) == "real" {
+			cls = "real"
+		}
 	}
 	target := targetOf(c.State)
 	accepted := after.expel[target] != before.expel[target] || after.penalty.Cmp(before.penalty) != 0 || after.tokens[target].Cmp(before.tokens[target]) != 0
@@ -306,7 +345,10 @@ func (w *world) run(c Case) string {
 			report("validator penalised although the block carries no slash data", "")
 		}
 		// exactly once and within the configured fraction of stake + unfinished withdrawals
+		// what the accused side loses: the validator's tokens and unfinished withdrawals, plus what the
+		// recipients of withdrawals paid out in this very block receive less than in the control block
 		taken := new(big.Int).Sub(before.tokens[target], after.tokens[target])
+		taken.Add(taken, new(big.Int).Sub(before.accounts, after.accounts))
 		gain := new(big.Int).Sub(after.penalty, before.penalty)
 		if taken.Cmp(gain) != 0 {
 			report("penalty account does not receive exactly what the validator loses", fmt.Sprintf("taken %v, PenaltyTo +%v", taken, gain))
@@ -373,7 +415,7 @@ func forgeKind(c Case) string {
 
 func (w *world) cases(quick bool) []Case {
 	var out []Case
-	states := []string{"genesis", "delegated", "withdrawing", "tinyhouse"}
+	states := statesOf(quick)
 	pool := append(append([]string{}, poolGenuine...), poolForged...)
 	var seqs [][]string
 	for _, a := range pool {
@@ -387,6 +429,19 @@ func (w *world) cases(quick bool) []Case {
 		for _, b := range poolGenuine {
 			for _, c := range pool {
 				seqs = append(seqs, []string{a, b, c}, []string{c, a, b})
+			}
+		}
+	}
+	if !quick {
+		// thorough: the full triple product over the whole pool
+		seqs = seqs[:0]
+		for _, a := range pool {
+			seqs = append(seqs, []string{a})
+			for _, b := range pool {
+				seqs = append(seqs, []string{a, b})
+				for _, c := range pool {
+					seqs = append(seqs, []string{a, b, c})
+				}
 			}
 		}
 	}
@@ -422,6 +477,22 @@ func (w *world) cases(quick bool) []Case {
 						c.Placement = pl
 						out = append(out, c)
 					}
+					if !quick {
+						// thorough: the full product of the sweep dimensions instead of one at a time
+						for vt := uint8(0); vt <= 6; vt++ {
+							for _, idx := range []string{"s1", "c1", "oor"} {
+								for _, off := range []int{-1, 0, 1} {
+									for _, ri := range []uint32{1, 2} {
+										for _, pl := range []string{"once", "x2", "two", "replay"} {
+											c := base
+											c.VoteType, c.IdxOf, c.RoundOff, c.Index, c.Placement = vt, idx, off, ri, pl
+											out = append(out, c)
+										}
+									}
+								}
+							}
+						}
+					}
 				}
 			}
 		}
@@ -429,12 +500,22 @@ func (w *world) cases(quick bool) []Case {
 	return out
 }
 
+// statesOf: the validator states evidences are judged in.  Thorough adds matured
+// withdrawals, a validator that is online only thanks to a delegation, and a
+// validator that was already expelled for an earlier double sign.
+func statesOf(quick bool) []string {
+	if quick {
+		return []string{"genesis", "delegated", "withdrawing", "tinyhouse"}
+	}
+	return []string{"genesis", "delegated", "withdrawing", "tinyhouse", "matured", "thin", "expelled"}
+}
+
 func setup(r *mc.Run) *world {
 	cfg := chainx.DefaultCfg
 	cfg.MaxRewardsPeriod = 1000
 	chainx.SetParams(cfg)
 	w := &world{r: r, f: chainx.Fix(), start: map[string]*chainx.Node{}}
-	for _, st := range []string{"genesis", "delegated", "withdrawing", "tinyhouse"} {
+	for _, st := range statesOf(r.Quick()) {
 		h := &chainx.Hist{F: w.f, R: r, Prefix: chainx.Prefixes[st]}
 		h.Reset()
 		// one more empty block in genesis state so that round-1 exists for "B@r-1"
